@@ -135,14 +135,21 @@ func (e *Encoder) Encode(obus [][]byte) ([]*rtp.Packet, error) {
 				break
 			}
 
+			// whether a fragment of this OBU has been written into the current packet.
+			// if there's no room for it, the OBU starts in the next packet
+			// and must not be marked as a continuation.
+			fragmented := false
+
 			if omitSize {
 				if avail > 0 {
+					fragmented = true
 					curPacket.Payload[0] |= byte((obusInPacket + 1) << 4) // W
 					curPacket.Payload = append(curPacket.Payload, obu[:avail]...)
 					obu = obu[avail:]
 				}
 			} else {
 				if avail > maxFragmentedLEBSize {
+					fragmented = true
 					fragmentLen := avail - maxFragmentedLEBSize
 					fragmentLenLEB := av1.LEB128(fragmentLen)
 					fragmentLenLEBSize := fragmentLenLEB.MarshalSize()
@@ -155,8 +162,8 @@ func (e *Encoder) Encode(obus [][]byte) ([]*rtp.Packet, error) {
 				}
 			}
 
-			finalizeCurPacket(true)
-			createNewPacket(true)
+			finalizeCurPacket(fragmented)
+			createNewPacket(fragmented)
 		}
 	}
 
